@@ -390,6 +390,15 @@ where
         )
     }
 
+    /// Verification hook: records that the connection was lost `secs_ago` seconds ago,
+    /// as if the context had noticed the disconnection itself.
+    ///
+    #[cfg(poster_verif)]
+    pub fn verif_mark_disconnected(&mut self, secs_ago: u64) {
+        self.connection.disconnection_timestamp =
+            Some(SystemTime::now() - std::time::Duration::from_secs(secs_ago));
+    }
+
     /// Sets up communication primitives for the context. This is the first method
     /// to call when starting the connection with the broker.
     ///
